@@ -1783,7 +1783,7 @@ impl UnicodeDef {
         };
         if let Some(str) = ch.as_str() {
             if str.is_empty() {
-                bail!("Empty character definition. Replacement is {}", replacements.as_str().unwrap());
+                bail!("Empty character definition. Replacement is {}", yaml_to_string(replacements, 0));
             }
             let mut chars = str.chars();
             let first_ch = chars.next().unwrap();       // non-empty string, so a char exists
@@ -1815,14 +1815,21 @@ impl UnicodeDef {
             // should be a character range (e.g., "A-Z")
             // iterate over that range and also substitute the char for '.' in the 
             let mut range = def_range.split('-');
-            let first = range.next().unwrap().chars().next().unwrap() as u32;
-            let last = range.next().unwrap().chars().next().unwrap() as u32;
+            let first = range.next().and_then(|str| str.chars().next());
+            let last = range.next().and_then(|str| str.chars().next());
+            let (first, last) = match (first, last) {
+                (Some(first), Some(last)) => (first as u32, last as u32),
+                _ => bail!("Character range definition needs a character on both sides of the '-': '{}'", def_range),
+            };
             if range.next().is_some() {
                 bail!("Character range definition has more than one '-': '{}'", def_range);
             }
 
             for ch in first..last+1 {
-                let ch_as_str = char::from_u32(ch).unwrap().to_string();
+                let ch_as_str = match char::from_u32(ch) {
+                    Some(ch) => ch.to_string(),
+                    None => continue,       // the range spans the surrogates
+                };
                 unicode_table.insert(ch, ReplacementArray::build(&substitute_ch(replacements, &ch_as_str))
                                         .chain_err(|| format!("In definition of char: '{}'", def_range))?.replacements);
             };
